@@ -107,6 +107,16 @@ CHECKS = {
               "closed-form Nesterov momentum SGD before the start step."),
         note="Trusted: the docstring formula for the scheduled interval; twin comparisons at rtol 1e-5 (differently compiled programs).",
         design="DESIGN.md section 3, C04"),
+    "C05": dict(
+        category="exploration",
+        technique="property-based differential testing: twin runs of the real optimizer with the grafting type and with grafting NONE give the direction, float64 closed forms of the grafting optimizers give the norm, over generated configurations / trees / histories",
+        text=("Generated-input search over graft type x preconditioner representation (full, compressed +-r, frequent directions, "
+              "int16-quantised pmap, Tearfree Shampoo, Tearfree Sketchy) x trees with excluded leaves x start step x histories with "
+              "momentum and weight decay off (~330 configurations / 1.2e3 steps quick): before the start step and on excluded leaves the "
+              "update equals the graft step elementwise; from the start step on its norm equals the graft step's norm and its direction "
+              "the NONE twin's (cosine), zero direction gives zero update."),
+        note="Trusted: NumPy closed forms of SGD/AdaGrad/RMSProp/normalised/sign steps; optax.adafactor for ADAFACTOR; the NONE twin shares statistics and preconditioners.",
+        design="DESIGN.md section 3, C05"),
 }
 
 NOT_YET = {}
